@@ -181,3 +181,46 @@ def forward_open_size(frame):
     else:
         return None
     return a if a == b else None
+
+
+class UdpSocket:
+    """socket.socket(AF_INET, SOCK_DGRAM) during a ListIdentity broadcast: every device's reply arrives as one datagram, then
+    recv times out"""
+
+    def __init__(self, replies=()):
+        self.replies = list(replies)
+        self.sent = []
+        self.bound = None
+
+    def settimeout(self, t):
+        return None
+
+    def setsockopt(self, *a):
+        return None
+
+    def bind(self, addr):
+        self.bound = addr
+
+    def sendto(self, msg, addr):
+        self.sent.append((msg, addr))
+        return len(msg)
+
+    def recv(self, n):
+        if len(self.replies) > 0:
+            return self.replies.pop(0)
+        raise OSError("timed out")
+
+    def close(self):
+        return None
+
+
+class SocketModule:
+    """what pycomm3.cip_driver sees as the `socket` module while one UdpSocket is handed out"""
+    AF_INET, SOCK_DGRAM, SOL_SOCKET, SO_BROADCAST = 2, 2, 1, 6
+    error = OSError
+
+    def __init__(self, sock):
+        self._sock = sock
+
+    def socket(self, *a):
+        return self._sock
